@@ -180,7 +180,7 @@ def compare_models(Py, F, tier, acc=None):
                 note('evaluate', dict(t=t, python=ra[0], fortran=rb[0], maxdiff=float(np.nanmax(np.abs(a.values - b.values)))))
         elif rb[0] == 'value':
             note('evaluate-infeasible-accepted', dict(t=t, python=ra[0], fortran=rb[0]))
-    ts = sorted({Py.LAGS, Py.LAGS + 1, -1 - Py.LEADS, 0, -1})
+    ts = sorted(set(range(Py.LAGS, L - Py.LEADS)) | {-1 - Py.LEADS, -2 - Py.LEADS, 0, -1})
     # exact arithmetic: with all data dyadic the per-pass change hits tol exactly (strict '<' in both back-ends)
     for tol, max_iter, failures in itertools.product((0.0, 0.125, 0.25, 0.5, 1.0, 4.0), (3, 10, 100), ('raise', 'ignore')):
         a, b = Py(range(L)), F(range(L))
@@ -271,6 +271,18 @@ def run_case(case, workdir=None, tier='quick'):
             return [], 0
         Py, F, src, err = fortran_bridge.build(symbols, workdir)
         out = []
+        if family in ('system', 'names'):
+            # build options: the Fortran module must declare the same lag/lead lengths as the Python class for every option set
+            from fsic.fortran import build_fortran_definition
+            for lags, leads, min_lags, min_leads in itertools.product((None, 0, 3), (None, 1, 3), (0, 2), (0, 2)):
+                kw = dict(lags=lags, leads=leads, min_lags=min_lags, min_leads=min_leads)
+                PyK = fsic.build_model(symbols, **kw)
+                srcK = build_fortran_definition(symbols, **kw)
+                badK = structure_ok(srcK, PyK)
+                if badK:
+                    out.append(('structure:options', 'same lag/lead lengths and numbering as the Python class', [kw, badK],
+                                'Fortran module and Python class disagree under build options'))
+                    break
         has_literal = family.startswith('literal') or family.endswith('literal')
         if F is None:
             # does not compile: attribute to literal kinds only if the literal rewrite repairs it
